@@ -5,7 +5,7 @@ META = dict(
     category='model_checking',
     engine='WorkingCopy',
     technique='TLA+ state machine WorkingCopy: TLC model checking of the transcribed update (skip outcomes) against the C25 contract + TLC-generated behaviours with foreign files, directories and symlinks in the way replayed on a real LocalWorkingCopy + seeded random scripts, every step judged by TLC',
-    text='Contract UpdateSafe, evaluated on every CheckOut transition: a file or symlink at a path the update does not touch (untracked, ignored, or tracked and modified) is byte-for-byte unchanged; an untracked file standing where the new tree wants a file is left alone and the path is reported skipped; the sentinel directory outside the workspace (target of a symlinked directory d) is never written; no path is dropped silently (skipped >= number of tree paths not materialised). TLC checks it on the bounded model (seeded bugs "overwrite the untracked file" and "resolve through the symlinked directory" fail) and on the real code for TLC-generated and random scripts.',
+    text='Contract UpdateSafe, evaluated on every CheckOut transition: a file or symlink at a path the update does not touch (untracked, ignored, or tracked and modified) is byte-for-byte unchanged; an untracked file standing where the new tree wants a file is left alone and the path is reported skipped; the sentinel directory outside the workspace (pre-populated with the same sub-paths x/, x/z; target of symlinks that replace the directory d or d/x at either depth) is never written at any depth; no path is dropped silently (skipped >= number of tree paths not materialised). TLC checks it on the bounded model (seeded bugs "overwrite the untracked file" "resolve through the symlinked directory" and "only the immediate parent is checked on the in-place fast path" fail) and on the real code for TLC-generated and random scripts.',
     note='As the statement says, files modified since the last snapshot are protected only on paths the update does not touch (the code\'s own TODO). The debug-assertion panic "changed_file_states must be sorted" reached when a directory of the old tree was replaced by a file/symlink is a known finding.',
     design='4 C25',
 )
@@ -16,7 +16,7 @@ LEVEL = META["category"]
 def run(ctx):
     wcutil.run_wc(
         ctx, "C25",
-        mc_cfgs=[ctx.q("c25", "c25_thorough")],
-        neg_cfgs=[("neg_co_overwrite", "Inv_C25"), ("neg_co_follow_symlink", "Inv_C25"), ("finding_unsorted", "Inv_C25")],
-        gen_cfgs=[("gen_c25", ctx.q(300, 1000))],
+        mc_cfgs=ctx.q(["c25", "c25_symlink"], ["c25_thorough", "c25_symlink_thorough"]),
+        neg_cfgs=[("neg_co_overwrite", "Inv_C25"), ("neg_co_follow_symlink", "Inv_C25"), ("neg_co_follow_ancestor_symlink", "Inv_C25"), ("finding_unsorted", "Inv_C25")],
+        gen_cfgs=[("gen_c25", ctx.q(250, 700)), ("gen_c25_symlink", ctx.q(120, 300))],
         n_random=ctx.q(300, 2000), focus="checkout")
